@@ -98,6 +98,14 @@ def passed(e, start, c, k):
     return S.Or(e[k] < start[k], S.And(start[k] <= e[k], e[k] < start[k] + c[k], passed(e, start, c, k - 1)))
 
 
+def chunk_item_post(slices, shape, chunk):
+    """Per-yield postconditions of iterate_chunks; checked at every yield of the real generator (IterateChunks.on_yield) and
+    assumed for an arbitrary item where a caller is verified against this contract (contracts.c10_stats)."""
+    return [("inside-array", S.And(*[S.And(0 <= s.start, s.start < s.stop, s.stop <= n) for s, n in zip(slices, shape)])),
+            ("within-chunk-shape", S.And(*[s.stop - s.start <= c for s, c in zip(slices, chunk)])),
+            ("whole-axis-when-chunk>=extent", S.And(*[S.Or(c < n, S.And(s.start == 0, s.stop == n)) for s, n, c in zip(slices, shape, chunk)]))]
+
+
 class IterateChunks(FnContract):
     property_ids = ('C20', 'C10')
     target = ARRAY + ":iterate_chunks"
@@ -163,10 +171,8 @@ class IterateChunks(FnContract):
                 return None
             chunk = env.get('chunk_shape')
             chunk = tuple(I.iterate_concrete(chunk))
-            P.check(qn + "/yield:inside-array",
-                    S.And(*[S.And(0 <= s.start, s.start < s.stop, s.stop <= n) for s, n in zip(slices, st.shape)]))
-            P.check(qn + "/yield:within-chunk-shape",
-                    S.And(*[s.stop - s.start <= c for s, c in zip(slices, chunk)]))
+            for lbl, c in chunk_item_post(slices, st.shape, chunk):
+                P.check(qn + "/yield:" + lbl, c)
             if st.n_max is not None:
                 P.check(qn + "/yield:size<=n_max", S.prod([s.stop - s.start for s in slices]) <= st.n_max)
             if st.e is not None:
@@ -186,6 +192,7 @@ class IterateChunks(FnContract):
             chunk = tuple(L.interp.iterate_concrete(L.chunk_shape))
             return [('0<=start<extent', S.And(*[S.And(0 <= a, a < n) for a, n in zip(start, shape)])),
                     ('shape-unchanged', S.And(*[a == b for a, b in zip(shape, st.shape)])),
+                    ('start==0-when-chunk>=extent', S.And(*[S.Or(c < n, a == 0) for a, n, c in zip(start, shape, chunk)])),
                     ('count==passed', L.ghost['count'] == S.If(passed(st.e, start, chunk, d - 1), 1, 0))]
 
         def dec(L):
